@@ -90,7 +90,7 @@ AcceptKey(e) ==
 \* 400-class error (never a panic); otherwise it proceeds and is refused for lack of any carrier.
 MaxUri == 65534
 AcceptFoldSize(e) ==
-    IF Len(e.path) + 1 + 2 + e.n > MaxUri
+    IF e.fold /\ Len(e.path) + 1 + 2 + e.n > MaxUri
     THEN e.res = "err" /\ e.kind \in {"MalformedQueryString", "InvalidBodyEncoding"} /\ e.status = 400
     ELSE IsErr(e, "MissingAuthenticationToken", 400)
 
@@ -156,7 +156,7 @@ Expected(e) ==
       [] e.op = "hval"  -> NormValue(e.v)
       [] e.op = "ts"    -> Parse(e.s)
       [] e.op = "key"   -> [accepts |-> FromStrAccepts(e.secret, e.cap)]
-      [] e.op = "foldsize" -> [tooLong |-> Len(e.path) + 3 + e.n > MaxUri]
+      [] e.op = "foldsize" -> [tooLong |-> e.fold /\ Len(e.path) + 3 + e.n > MaxUri]
       [] OTHER -> "?"
 
 Count(reg) == TLCSet(reg, TLCGet(reg) + 1)
